@@ -470,7 +470,7 @@ class Simulation:
         self._summary = self._build_summary()
         return self._summary
 
-    def _execute_until(self, end_time_ns: int) -> None:
+    def _execute_until(self, end_time_ns: int, *, stay_within_bound: bool = False) -> None:
         """Run the pop-invoke-push loop until time exceeds end_time_ns.
 
         This is the extracted inner loop shared by ``_run_loop_fast`` (normal
@@ -481,6 +481,12 @@ class Simulation:
         When ``_event_router`` is set, produced events are passed through the
         router which separates local events (returned to push) from
         cross-partition events (appended to an outbox as a side-effect).
+
+        With ``stay_within_bound`` the next event is inspected before it is
+        removed and left in the heap when it lies beyond ``end_time_ns``.
+        Windowed execution needs this: a partition that ran ahead of its window
+        would discard, as being in its past, a cross-partition event that
+        arrives for an earlier time.
         """
         heap = self._event_heap
         clock = self._clock
@@ -493,7 +499,11 @@ class Simulation:
         events_cancelled = self._events_cancelled
         router = self._event_router
 
+        heap_peek = heap.peek
+
         while heap_has_events() and current_time.nanoseconds <= end_time_ns:
+            if stay_within_bound and heap_peek().time.nanoseconds > end_time_ns:
+                break
             event = heap_pop()
 
             if event._cancelled:
@@ -563,7 +573,7 @@ class Simulation:
 
         with _active_sim_context(self._event_heap, self._clock):
             with _active_debugger_context(None):
-                self._execute_until(window_end.nanoseconds)
+                self._execute_until(window_end.nanoseconds, stay_within_bound=True)
 
     def _build_summary(self) -> SimulationSummary:
         """Build a SimulationSummary from current state."""
